@@ -50,6 +50,7 @@ PINS["linspace JVP broadcasts"] = ("C02", ["regress/C02/linspace-broadcast-jvp.j
 PINS["absolute has a finite"] = ("C01", ["regress/C01/absolute-at-zero.json", "regress/C02/absolute-at-zero-jvp.json"])
 PINS["linspace VJP contracts the sample axis"] = ("C01", ["regress/C01/linspace-rank2.json"])
 PINS["eigh VJP keeps the eigenvector term"] = ("C07", ["regress/C07/eigh-zero-cotangent-guard.json"])
+PINS["list-form einsum VJP sums the broadcast axes"] = ("C01", ["regress/C01/einsum-list-trailing-ellipsis.json"])
 EXTRA = {}
 
 
